@@ -32,8 +32,8 @@ RULE = ("constructor maps + history of 4-22 operations on one Workflow: add (9 n
         "unknown keys, None), value and channel assignment through wf.inputs[...], run with/without keyword "
         "arguments in the spellings wf.run(**kw) / wf(**kw) / wf.set_input_values(**kw) (cyclic graphs included), values "
         "typed int/bool/float and half of the time == to the held value but of another type, a child leaving by "
-        "node.parent = None / = another workflow, pulling ONE child (child.pull() / child(), only on acyclic data with "
-        "readable panels; child labels ending in a digit get a node whose id contains that digit), re-adding a REMOVED node object (same or new label), relabelling a "
+        "node.parent = None / = another workflow, pulling ONE child (child.pull() / child() -- the latter first lets the workflow fetch its exposed inputs, "
+        "connected ones included --, only on acyclic data with readable panels; child labels ending in a digit get a node whose id contains that digit), re-adding a REMOVED node object (same or new label), relabelling a "
         "current child by add_child(child, label=new), replace_child by a fresh or a previously removed node of the "
         "same kind (only where the replaced child is unconnected and no connected channel is exposed), IN-PLACE edits "
         "of the map object handed out by wf.inputs_map / wf.outputs_map (item assignment incl. names already used by "
@@ -653,10 +653,6 @@ def run_impl(case):
             except TypeError:
                 return "skip"
             if data_cyclic():
-                return "skip"
-            if op[2] and any(len(ch.connections) > 0 for ch in wf.inputs):
-                # child() first pulls the workflow itself; with a connected channel exposed by the map the
-                # workflow's own data tree reaches into its children and topology refuses it (ValueError)
                 return "skip"
             node = wf.children[op[1]]
             try:
